@@ -699,6 +699,34 @@ def pown_program(rng):
         g.close()
 
 
+def scalar_dispatch_program(rng):
+    """The five binary functions (and their operator forms) on every pair (scalar, non-scalar) and (scalar, scalar) with every
+    compatible batch pattern — a scalar WITH a minibatch included —, both operand orders, on both APIs: the scalar rule
+    applies whenever an operand has no dimensions, whatever its batch."""
+    g = Gen(rng)
+    try:
+        B = rng.choice([2, 3])
+        dims = [rng.choice([2, 3]) for _ in range(rng.choice([1, 2]))]
+        s1 = g.new_input([], 1, lo=1, hi=3)
+        sB = g.new_input([], B, lo=1, hi=3)
+        t1 = g.new_input(dims, 1, lo=1, hi=3)
+        tB = g.new_input(dims, B, lo=1, hi=3)
+        p = g.new_param(dims, lo=1, hi=3)
+        for f in ("add", "subtract", "multiply", "divide", "pow"):
+            for a in (s1, sB):
+                for b in (t1, tB, p, s1, sB):
+                    for (x, y) in ((a, b), (b, a)):
+                        if x is None or y is None:
+                            continue
+                        v = g.let(f, [x.name, y.name])
+                        if v is not None:
+                            g.emit("force " + v.name)
+        g.emit("nops")
+        return g.lines
+    finally:
+        g.close()
+
+
 def device_program(rng):
     """Programs over several devices on both APIs: copy with the device argument omitted (the default device), copy to a
     named device, and binary functions whose LEFT operand is a scalar on another device than the right operand."""
